@@ -52,7 +52,13 @@ def tasks(tier):
         for first in b["ops"]:
             if st == "empty" and first in ("delete_ix", "delete_mn", "update_ix", "update_mn", "replace_item"):
                 continue
-            out.append({"name": "%s/%s" % (st, first), "params": {"start": st, "first": first, "k": b["history_len"] if st != "two-transforms" else 2}})
+            k = b["history_len"] if st != "two-transforms" else 2
+            if k >= 3:
+                # histories of three operations: one task per (first, second) operation kind (independent cases, run in parallel)
+                for second in b["ops"]:
+                    out.append({"name": "%s/%s/%s" % (st, first, second), "params": {"start": st, "first": first, "second": second, "k": k}})
+            else:
+                out.append({"name": "%s/%s" % (st, first), "params": {"start": st, "first": first, "k": k}})
     return out
 
 
@@ -86,6 +92,10 @@ def harness(ns, params):
             valid = [o for o in range(len(OPS)) if n > 0 or OPS[o] in ("append", "insert", "setitem_arr", "setitem_item", "set_data")]
             if t == 0:
                 op = first
+            elif t == 1 and params.get("second"):
+                op = params["second"]
+                if OPS.index(op) not in valid:
+                    raise core.Abort()  # e.g. a deletion from an empty list: not a history
             else:
                 oi = fresh_int("op%d" % t, 0, len(valid) - 1)
                 op = OPS[valid[oi.__index__()]]
